@@ -75,6 +75,14 @@ unsafe impl<L: Flat + Length> Emplacer<FlatString<L>> for Empty {
 
 unsafe impl<L: Flat + Length, S: AsRef<str>> Emplacer<FlatString<L>> for FromStr<S> {
     unsafe fn emplace_unchecked(self, bytes: &mut [u8]) -> Result<&mut FlatString<L>, Error> {
+        // Check the capacity (it only depends on the slice length) before touching the contents,
+        // so that a failed assignment leaves the previous value intact.
+        if unsafe { FlatString::<L>::from_mut_bytes_unchecked(bytes) }.capacity() < self.0.as_ref().len() {
+            return Err(Error {
+                kind: ErrorKind::InsufficientSize,
+                pos: 0,
+            });
+        }
         unsafe { <Empty as Emplacer<FlatString<L>>>::emplace_unchecked(Empty, bytes) }?;
         let vec = unsafe { FlatString::<L>::from_mut_bytes_unchecked(bytes) };
         vec.push_str(self.0.as_ref()).map_err(|_| Error {
